@@ -193,6 +193,17 @@ def run_case(res, case):
             if not close(ga, gexp):
                 return viol("wrong_value", "grad_and_aux grad deviates", "grad_and_aux")
             ops_checked.append("grad_and_aux")
+            # primal / auxiliary values stay differentiable by an enclosing operator
+            j_aux = jacobian(lambda x: grad_and_aux(lambda a, xx, b: (L_ag(a, xx, b, scale=scale), f_ag(a, xx, b, scale=scale) * 1.0), 1)(a0, x, b0)[1])(x0)
+            if onp.shape(j_aux) != out_shape + in_shape or not close(j_aux, Jt):
+                return viol("wrong_value", "jacobian of the aux output of grad_and_aux (taken inside jacobian) deviates from J: %s" % common.brief(onp.asarray(j_aux)), "grad_and_aux:nested")
+            g_val = grad(lambda x: value_and_grad(L_ag, 1)(a0, x, b0, scale=scale)[0])(x0)
+            if not close(g_val, gexp):
+                return viol("wrong_value", "grad of the value returned by value_and_grad (nested) deviates", "value_and_grad:nested")
+            t_aux = make_jvp(lambda x: grad_and_aux(lambda a, xx, b: (L_ag(a, xx, b, scale=scale), f_ag(a, xx, b, scale=scale) * 1.0), 1)(a0, x, b0)[1])(x0)(v)[1]
+            if not close(t_aux, expt):
+                return viol("wrong_value", "jvp through the aux output of grad_and_aux deviates", "grad_and_aux:nested")
+            ops_checked.append("nested_primal_aux")
             # --- second order: reference H = FD Jacobian of autograd's gradient (C01-judged), symmetric
             Gf = lambda vv_: common.realify(grad(Lx)(common.unrealify(vv_, x0)))
             H = onp.zeros((n, n))
